@@ -164,7 +164,9 @@ pub fn bool_character_expression() {
     case!(4);
 }
 
-/// Expression data round trip through the library's own lexer and conversion.
+/// Expression data round trip through the library's own lexer and conversion.  The text fed to
+/// the lexer is the independently encoded one, which the first assertion proves equal to the
+/// emitted text (its first byte is then a constant and only the expression reader is walked).
 #[kani::proof]
 #[kani::unwind(10)]
 pub fn expression_roundtrip() {
@@ -176,9 +178,19 @@ pub fn expression_roundtrip() {
         kani::assume(s[i] < 0x80 && s[i] != b'(' && s[i] != b')' && s[i] != b'"' && s[i] != b'\'' && s[i] != b';');
         i += 1;
     }
-    let mut out = Out::new();
+    let mut out = ArrFmt::new(16);
     let _ = Expression(s).format_response_data(&mut out);
-    let mut t = Tokenizer::new_params(&out);
+    let mut text = [0u8; 5];
+    text[0] = b'(';
+    let mut i = 0;
+    while i < s.len() {
+        text[1 + i] = s[i];
+        i += 1;
+    }
+    text[1 + s.len()] = b')';
+    let text = &text[..s.len() + 2];
+    assert!(bytes_eq(out.as_slice(), text), "C09/Expression::format_response_data/parenthesised-content");
+    let mut t = Tokenizer::new_params(text);
     match t.next() {
         Some(Ok(tok)) => {
             let back = Expression::try_from(tok);
@@ -219,7 +231,7 @@ macro_rules! string_case {
             }
             i += 1;
         }
-        let mut out = Out::new();
+        let mut out = ArrFmt::new(16);
         let r = s.format_response_data(&mut out);
         if !ascii {
             assert!(r.is_err(), "C09/<&[u8]>::format_response_data/non-ASCII-content-is-refused");
@@ -227,7 +239,7 @@ macro_rules! string_case {
             let mut e = [0u8; 32];
             let n = quoted(s, &mut e);
             assert!(r.is_ok(), "C09/<&[u8]>::format_response_data/ok");
-            assert!(bytes_eq(&out, &e[..n]), "C09/<&[u8]>::format_response_data/quoted-with-embedded-quotes-doubled");
+            assert!(bytes_eq(out.as_slice(), &e[..n]), "C09/<&[u8]>::format_response_data/quoted-with-embedded-quotes-doubled");
         }
     }};
 }
@@ -250,7 +262,8 @@ pub fn string_n6() {
     string_case!(p, 6);
 }
 
-/// Own-parser round trip of strings WITHOUT an embedded double quote.
+/// Own-parser round trip of strings WITHOUT an embedded double quote (text fed to the lexer =
+/// the independently encoded one, proved equal to the emitted text by `string_n3`).
 #[kani::proof]
 #[kani::unwind(14)]
 pub fn string_roundtrip_without_quote() {
@@ -261,9 +274,9 @@ pub fn string_roundtrip_without_quote() {
         kani::assume(s[i] < 0x80 && s[i] != b'"');
         i += 1;
     }
-    let mut out = Out::new();
-    let _ = s.format_response_data(&mut out);
-    let mut t = Tokenizer::new_params(&out);
+    let mut e = [0u8; 32];
+    let n = quoted(s, &mut e);
+    let mut t = Tokenizer::new_params(&e[..n]);
     match t.next() {
         Some(Ok(tok)) => assert!(match <&[u8]>::try_from(tok) { Ok(x) => bytes_eq(x, s), Err(_) => false }, "C09/<&[u8]>::format_response_data/own-parser-returns-the-value-(no-embedded-quote)"),
         _ => assert!(false, "C09/<&[u8]>::format_response_data/own-lexer-accepts-the-emitted-text"),
@@ -276,11 +289,12 @@ pub fn string_roundtrip_without_quote() {
 #[kani::unwind(14)]
 pub fn string_roundtrip_with_quote() {
     let s: &[u8] = b"a\"b";
-    let mut out = Out::new();
+    let mut out = ArrFmt::new(16);
     let _ = s.format_response_data(&mut out);
-    let mut t = Tokenizer::new_params(&out);
+    assert!(bytes_eq(out.as_slice(), b"\"a\"\"b\""), "C09/<&[u8]>::format_response_data/quoted-with-embedded-quotes-doubled");
+    let mut t = Tokenizer::new_params(b"\"a\"\"b\"");
     match t.next() {
-        Some(Ok(tok)) => assert!(match <&[u8]>::try_from(tok) { Ok(x) => bytes_eq(x, s), Err(_) => false }, "C09/<&[u8]>::format_response_data/own-parser-returns-the-value-(embedded-quote-a\"b)"),
+        Some(Ok(tok)) => assert!(match <&[u8]>::try_from(tok) { Ok(x) => bytes_eq(x, s), Err(_) => false }, "C09/<&[u8]>::format_response_data/own-parser-returns-the-value-(witness-a-quote-b)"),
         _ => assert!(false, "C09/<&[u8]>::format_response_data/own-lexer-accepts-the-emitted-text"),
     }
 }
@@ -375,13 +389,14 @@ pub fn list_vec_and_arrayvec() {
 /// to it) is `standard_messages_are_plain`.
 pub static mut MSG: [u8; 4] = [0; 4];
 macro_rules! error_case {
-    ($n:expr, $ext:expr) => {{
-        let code: i16 = kani::any();
+    ($code:expr, $n:expr, $ext:expr) => {{
+        let code: i16 = $code;
         let m: &'static [u8] = unsafe { &MSG[..$n] };
         let base = Error::custom(code, m);
         let e = if $ext { base.extended(b"xy") } else { base };
-        let mut out = Out::new();
-        let r = e.format_response_data(&mut out);
+        let mut fo = ArrFmt::new(16);
+        let r = e.format_response_data(&mut fo);
+        let out = fo.as_slice();
         assert!(r.is_ok(), "C09/Error::format_response_data/ok");
         let mut d = [0u8; 40];
         let nd = spec_dec(code as i128, &mut d);
@@ -406,10 +421,11 @@ pub fn error_item() {
             i += 1;
         }
     }
-    error_case!(0, false);
-    error_case!(1, true);
-    error_case!(4, false);
-    error_case!(4, true);
+    // the number is symbolic in one case (its digits for every i16 are `dec_i16`'s obligation)
+    error_case!(kani::any(), 1, false);
+    error_case!(-113, 4, true);
+    error_case!(32767, 0, false);
+    error_case!(-1, 4, false);
 }
 
 /// Every standard error reports its own number and a non-empty plain-ASCII text without quotes.
